@@ -71,7 +71,11 @@ KnownSvc(u) == \E j \in DOMAIN W.services : W.services[j].url = u
 (* A field node = [path (response keys from the operation root), pt (parent type), f (field   *)
 (* name), key (response key)].  Fragments only change the parent type.                        *)
 Range(seq) == {seq[i] : i \in DOMAIN seq}
-FieldTypeName(pt, f) == IF Has(W.types, pt) /\ Has(W.types[pt].fields, f) THEN W.types[pt].fields[f].type.ty ELSE ""
+(* Query.node(id:) returns the interface Node, which every service with Node types declares; its   *)
+(* possible types are all the Node types                                                          *)
+NodeTypes == {t \in DOMAIN W.types : W.types[t].node}
+FieldTypeName(pt, f) == IF pt = "Query" /\ f = "node" THEN "Node"
+                        ELSE IF Has(W.types, pt) /\ Has(W.types[pt].fields, f) THEN W.types[pt].fields[f].type.ty ELSE ""
 
 RECURSIVE Nodes(_, _, _)
 Nodes(sels, path, pt) ==
@@ -89,8 +93,11 @@ StepNodes(st) ==
         UNION { IF s.k = "F" /\ s.name = "node" THEN Nodes(s.sub, st.ip, st.parentType) ELSE {[path |-> st.ip, pt |-> "?", f |-> "?", key |-> "?"]}
               : s \in Range(st.facts.sel) }
 
+SvcHasNode(svc) == \E t \in DOMAIN svc.decl : t \in NodeTypes
 DeclaresField(svc, pt, f) ==
    \/ f = "__typename"
+   \/ pt = "Query" /\ f = "node" /\ SvcHasNode(svc)
+   \/ pt = "Node" /\ f = "id" /\ SvcHasNode(svc)
    \/ f = "id" /\ Has(svc.decl, pt) /\ Has(W.types, pt) /\ W.types[pt].node
    \/ Declares(svc, pt, f)
 
@@ -98,9 +105,11 @@ Scrubbed1(scrub, path, pt, f) ==
    LET k == JoinStr(path, ".") IN
    Has(scrub, k) /\ Has(scrub[k], pt) /\ \E i \in DOMAIN scrub[k][pt] : scrub[k][pt][i] = f
 (* the scrub table is keyed by the runtime type: for a helper on an interface / union every member counts *)
+IsAbstract(t) == t = "Node" \/ (Has(W.types, t) /\ W.types[t].kind \in {"INTERFACE", "UNION"})
+Members(t) == IF t = "Node" THEN NodeTypes ELSE Range(W.types[t].members)
 Scrubbed(scrub, path, pt, f) ==
-   IF Has(W.types, pt) /\ W.types[pt].kind \in {"INTERFACE", "UNION"}
-   THEN \A i \in DOMAIN W.types[pt].members : Scrubbed1(scrub, path, W.types[pt].members[i], f)
+   IF IsAbstract(pt)
+   THEN \A m \in Members(pt) : Scrubbed1(scrub, path, m, f)
    ELSE Scrubbed1(scrub, path, pt, f)
 
 VarOK(r, v) ==
@@ -110,11 +119,10 @@ VarOK(r, v) ==
         THEN LET d == RenderArgVal(op.varDefs[v].def) IN (Has(r.defaults, v) /\ r.defaults[v] = d) \/ (Has(r.passed, v) /\ r.passed[v] = d)
    ELSE ~Has(r.passed, v) \/ r.passed[v] = "~"
 
-IsAbstract(t) == Has(W.types, t) /\ W.types[t].kind \in {"INTERFACE", "UNION"}
 SameSpot(a, b) == a.path = b.path /\ a.key = b.key /\ a.f = b.f
 Related(t1, t2) == \/ t1 = t2
-                   \/ IsAbstract(t2) /\ t1 \in Range(W.types[t2].members)
-                   \/ IsAbstract(t1) /\ t2 \in Range(W.types[t1].members)
+                   \/ IsAbstract(t2) /\ t1 \in Members(t2)
+                   \/ IsAbstract(t1) /\ t2 \in Members(t1)
 
 PlanOK(p) ==
    LET steps  == {p.steps[i] : i \in {j \in DOMAIN p.steps : ~p.steps[j].internal}}
@@ -133,7 +141,7 @@ PlanOK(p) ==
       /\ \A n \in client :
             \/ \E x \in sent : (x.n = n /\ DeclaresField(SvcByUrl(x.url), n.pt, n.f))
             \/ /\ IsAbstract(n.pt)
-               /\ \A m \in Range(W.types[n.pt].members) :
+               /\ \A m \in Members(n.pt) :
                      \E x \in sent : (SameSpot(x.n, n) /\ x.n.pt = m /\ DeclaresField(SvcByUrl(x.url), m, n.f))
       \* (c) what is added are only id/__typename helpers, each registered for removal
       /\ \A x \in sent : \/ \E n \in client : (SameSpot(x.n, n) /\ Related(x.n.pt, n.pt))
@@ -195,7 +203,8 @@ RespOK(r) ==
    \*      no value appears in data that no service returned
    /\ E("C09") => /\ r.wellformed /\ r.status = 200
                   /\ (\E f \in faults : f.signal) => r.errors # <<>>
-                  /\ inv = "" => Range(r.leaves) \subseteq leaves
+                  \* (the name of the root type, answered by the gateway for a root __typename, is no service's value)
+                  /\ inv = "" => Range(r.leaves) \subseteq (leaves \cup {RootName(op.kind)})
    \* C10: an invalid operation is answered by the gateway alone: errors, data null ...
    /\ E("C10") => (inv # "" => r.wellformed /\ r.status = 200 /\ r.errors # <<>> /\ r.data = ZVal)
    \*      ... and the GraphQL errors of a service reach the client with message, extensions and path intact
